@@ -47,6 +47,9 @@ func init() {
 }
 
 func c02Exec(line string) string {
+	if strings.HasPrefix(line, "h ") {
+		return c02HistExec(line) // histories on one query object: c02_history.go
+	}
 	f := fields(line)
 	if len(f) == 8 {
 		f = append(f, "root")
@@ -447,10 +450,12 @@ func c02Gen(tier string, seed uint64, out *bufio.Writer) {
 		c02GenMixed(newRng(seed^0xC02A), out, 2400, 30)
 		c02GenOddSorts(newRng(seed^0xC02B), out, 600, 30)
 		c02GenAliases(newRng(seed^0xC02C), out, 600, 30)
+		c02GenHistories(newRng(seed^0xC02D), out, 800, 30)
 	} else {
 		c02GenMixed(newRng(seed^0xC02A), out, 160, 25)
 		c02GenOddSorts(newRng(seed^0xC02B), out, 60, 30)
 		c02GenAliases(newRng(seed^0xC02C), out, 60, 30)
+		c02GenHistories(newRng(seed^0xC02D), out, 80, 30)
 	}
 	if tier == "thorough" {
 		// bounded-exhaustive: n <= 6 rows x every skip/limit pool pair x 1-2 sort fields
